@@ -177,7 +177,9 @@ def batch(n, seed):
             o3 = np.where(fin, base + sgn * 0.5 * width, base)
             outs += [o1, o2, o3]
         O = np.array(outs, float)
-        O = np.where(logm, np.maximum(O, 1e-300), O)
+        # (no clamping of the hostile inputs: for a log-scaled coordinate with a small lower bound, "slightly
+        # outside" is zero or negative - the forward map must still land inside the transformed box)
+        O = np.vstack([O, np.where(logm, 0.0, lo_eff), np.where(logm, -np.abs(lo_eff), lo_eff)])
         UO = vt(O.copy())
         if not (np.all(UO >= lbt) and np.all(UO <= ubt)):
             viol.setdefault("C11/forward-output-outside-transformed-box", dict(ctx, outside_input=True))
